@@ -382,7 +382,7 @@ fn main() {
         let (cv, l) = &blocks[bi];
         let Ok(cmd) = build_valid(&cv.spec) else { return };
         let nested = cv.name.starts_with("nested:");
-        let alpha = if nested { conv::nested_alphabet() } else if cv.name.starts_with("values:") { conv::values_alphabet() } else if cv.name.starts_with("suggest:") { conv::suggest_alphabet() } else if cv.name.starts_with("defer:") { conv::defer_alphabet() } else if cv.name.contains(':') { conv::hyphen_alphabet() } else { conv::alphabet(&cv.spec) };
+        let alpha = if nested { conv::nested_alphabet() } else if cv.name.starts_with("values:") { conv::values_alphabet() } else if cv.name.starts_with("suggest:") { conv::suggest_alphabet() } else if cv.name.starts_with("defer:") { conv::defer_alphabet() } else if cv.name.starts_with("posalias:") { conv::posalias_alphabet() } else if cv.name.contains(':') { conv::hyphen_alphabet() } else { conv::alphabet(&cv.spec) };
         let mut h = Hist::new();
         let mut argv: Vec<Vec<u8>> = vec![];
         let mut idx = 0u64;
